@@ -115,11 +115,10 @@ fn exec(case: &Value) -> Vec<Value> {
     vec![json!({"trace": tr}), canon(&rs, &finals)]
 }
 
-/// Run one execution in a forked child (this process is single-threaded here, and the factory
-/// `static` of the child starts out untouched); `None` if the child died or hung.
-fn exec_child(case: &Value, prefix: &[usize]) -> Option<(Vec<(usize, usize)>, Value)> {
-    let mut c = case.clone();
-    c["prefix"] = json!(prefix);
+/// Run `f` in a forked child (this process is single-threaded here and never touches the factory
+/// itself, so the child starts with the factory `static` untouched); `None` if the child died or
+/// outlived `timeout_ms`.
+fn run_in_child(timeout_ms: u64, f: impl FnOnce() -> Vec<Value>) -> Option<Vec<Value>> {
     let mut fds = [0 as libc::c_int; 2];
     if unsafe { libc::pipe(fds.as_mut_ptr()) } != 0 {
         return None;
@@ -131,7 +130,7 @@ fn exec_child(case: &Value, prefix: &[usize]) -> Option<(Vec<(usize, usize)>, Va
     if pid == 0 {
         // child: run, write the observation to the pipe, leave without running destructors
         unsafe { libc::close(fds[0]) };
-        let obs = std::panic::catch_unwind(|| exec(&c)).unwrap_or_default();
+        let obs = std::panic::catch_unwind(std::panic::AssertUnwindSafe(f)).unwrap_or_default();
         let text = Value::Array(obs).to_string();
         let bytes = text.as_bytes();
         let mut off = 0;
@@ -145,12 +144,14 @@ fn exec_child(case: &Value, prefix: &[usize]) -> Option<(Vec<(usize, usize)>, Va
         unsafe { libc::_exit(0) };
     }
     unsafe { libc::close(fds[1]) };
+    let deadline = std::time::Instant::now() + std::time::Duration::from_millis(timeout_ms);
     let mut out: Vec<u8> = Vec::new();
     let mut buf = [0u8; 4096];
     let mut ok = true;
     loop {
+        let left = deadline.saturating_duration_since(std::time::Instant::now());
         let mut pfd = libc::pollfd { fd: fds[0], events: libc::POLLIN, revents: 0 };
-        let r = unsafe { libc::poll(&mut pfd, 1, 10_000) };
+        let r = unsafe { libc::poll(&mut pfd, 1, libc::c_int::try_from(left.as_millis()).unwrap_or(libc::c_int::MAX)) };
         if r <= 0 {
             ok = false; // hung (or poll failed): kill it
             unsafe { libc::kill(pid, libc::SIGKILL) };
@@ -173,7 +174,10 @@ fn exec_child(case: &Value, prefix: &[usize]) -> Option<(Vec<(usize, usize)>, Va
         return None;
     }
     let v: Value = serde_json::from_slice(&out).ok()?;
-    let obs = v.as_array()?;
+    v.as_array().cloned()
+}
+
+fn parse_exec(obs: &[Value]) -> Option<(Vec<(usize, usize)>, Value)> {
     let trace: Vec<(usize, usize)> = obs.first()?["trace"]
         .as_array()?
         .iter()
@@ -185,6 +189,14 @@ fn exec_child(case: &Value, prefix: &[usize]) -> Option<(Vec<(usize, usize)>, Va
         })
         .collect();
     Some((trace, obs.get(1)?.clone()))
+}
+
+/// One execution of a cold program: in a child of its own.
+fn exec_child(case: &Value, prefix: &[usize]) -> Option<(Vec<(usize, usize)>, Value)> {
+    let mut c = case.clone();
+    c["prefix"] = json!(prefix);
+    let obs = run_in_child(10_000, || exec(&c))?;
+    parse_exec(&obs)
 }
 
 /// One execution of a warm program in this process: the factory exists (the sequential prefix
@@ -193,21 +205,109 @@ fn exec_here(case: &Value, prefix: &[usize], nth: u64) -> Option<(Vec<(usize, us
     NAME_SUFFIX.store(nth, std::sync::atomic::Ordering::Relaxed);
     let mut c = case.clone();
     c["prefix"] = json!(prefix);
-    let obs = exec(&c);
-    let trace: Vec<(usize, usize)> = obs.first()?["trace"]
-        .as_array()?
-        .iter()
-        .map(|p| {
-            (
-                usize::try_from(as_u64(&p[0])).expect("nalt"),
-                usize::try_from(as_u64(&p[1])).expect("alt"),
-            )
-        })
-        .collect();
-    Some((trace, obs.get(1)?.clone()))
+    parse_exec(&exec(&c))
 }
 
+/// Address of the factory `static` (`INSTANCE` inside `get_instance` of the shimmed copy), found
+/// through the symbol table of this executable; `None` if it cannot be found (then cold programs
+/// fall back to a child process per execution).
+#[cfg(shim_ok)]
+fn instance_cell() -> Option<*mut usize> {
+    static CELL: std::sync::OnceLock<Option<usize>> = std::sync::OnceLock::new();
+    fn u16_at(b: &[u8], o: usize) -> Option<usize> {
+        Some(usize::from(u16::from_le_bytes(b.get(o..o + 2)?.try_into().ok()?)))
+    }
+    fn u32_at(b: &[u8], o: usize) -> Option<usize> {
+        usize::try_from(u32::from_le_bytes(b.get(o..o + 4)?.try_into().ok()?)).ok()
+    }
+    fn u64_at(b: &[u8], o: usize) -> Option<usize> {
+        usize::try_from(u64::from_le_bytes(b.get(o..o + 8)?.try_into().ok()?)).ok()
+    }
+    fn find() -> Option<usize> {
+        let b = std::fs::read("/proc/self/exe").ok()?;
+        if b.get(..5)? != [0x7f, b'E', b'L', b'F', 2] {
+            return None;
+        }
+        let (shoff, shentsize, shnum) = (u64_at(&b, 0x28)?, u16_at(&b, 0x3a)?, u16_at(&b, 0x3c)?);
+        let sect = |i: usize| -> Option<(usize, usize, usize, usize)> {
+            let o = shoff + i * shentsize;
+            // type, offset, size, link
+            Some((u32_at(&b, o + 4)?, u64_at(&b, o + 0x18)?, u64_at(&b, o + 0x20)?, u32_at(&b, o + 0x28)?))
+        };
+        let mut found: Vec<usize> = Vec::new();
+        for i in 0..shnum {
+            let (ty, off, size, link) = sect(i)?;
+            if ty != 2 {
+                continue; // SHT_SYMTAB
+            }
+            let (_, stroff, strsize, _) = sect(link)?;
+            for k in 0..size / 24 {
+                let so = off + k * 24;
+                let (name, value, sz) = (u32_at(&b, so)?, u64_at(&b, so + 8)?, u64_at(&b, so + 16)?);
+                let tail = b.get(stroff + name..stroff + strsize)?;
+                let end = tail.iter().position(|c| *c == 0)?;
+                let sym = std::str::from_utf8(&tail[..end]).ok()?;
+                if sz == 8 && sym.contains("shimmed") && sym.contains("beans") && sym.contains("get_instance") && sym.contains("INSTANCE") {
+                    found.push(value);
+                }
+            }
+        }
+        if found.len() != 1 {
+            return None;
+        }
+        // load bias of the main program
+        extern "C" fn cb(info: *mut libc::dl_phdr_info, _size: libc::size_t, data: *mut libc::c_void) -> libc::c_int {
+            unsafe { *data.cast::<usize>() = usize::try_from((*info).dlpi_addr).unwrap_or(0) };
+            1 // the first entry is the executable: stop
+        }
+        let mut bias: usize = 0;
+        unsafe { libc::dl_iterate_phdr(Some(cb), std::ptr::from_mut(&mut bias).cast()) };
+        Some(bias + found[0])
+    }
+    (*CELL.get_or_init(find)).map(|a| a as *mut usize)
+}
+
+#[cfg(not(shim_ok))]
+fn instance_cell() -> Option<*mut usize> {
+    None
+}
+
+/// Forget the factory: the next execution starts with `INSTANCE == 0` (the old factory leaks).
+fn reset_factory(cell: *mut usize) {
+    unsafe { std::ptr::write_volatile(cell, 0) };
+}
+
+/// Self-test of `reset_factory` (run inside the child that is going to use it): after a reset a
+/// bean created before is gone, and after re-creating it the address differs.
+fn reset_works(cell: *mut usize) -> bool {
+    let name = json!({"c": "god", "n": 999_999});
+    let get = json!({"c": "get", "n": 999_999});
+    let a = do_call(&name);
+    if unsafe { std::ptr::read_volatile(cell) } == 0 {
+        return false;
+    }
+    reset_factory(cell);
+    let gone = do_call(&get).is_null();
+    let b = do_call(&name);
+    reset_factory(cell);
+    gone && a != b
+}
+
+/// A program is enumerated inside ONE child (the process that drives the searches stays clean).
+/// Warm programs only need fresh bean names per execution. Cold programs race for the creation of
+/// the factory itself: the factory `static` is reset between executions, or, if it cannot be
+/// located, every execution gets a child process of its own.
 fn dfs(case: &Value) -> Vec<Value> {
+    let budget = case.get("budget_ms").map_or(60_000, as_u64);
+    let warm = case["seq0"].as_bool().unwrap_or(false);
+    if warm || instance_cell().is_some() {
+        run_in_child(budget + 30_000, || dfs_loop(case)).unwrap_or_else(|| vec![json!("lost")])
+    } else {
+        dfs_loop(case)
+    }
+}
+
+fn dfs_loop(case: &Value) -> Vec<Value> {
     let max_execs = usize::try_from(as_u64(&case["max_execs"])).expect("max_execs");
     let budget = std::time::Duration::from_millis(case.get("budget_ms").map_or(60_000, as_u64));
     let started = std::time::Instant::now();
@@ -215,14 +315,20 @@ fn dfs(case: &Value) -> Vec<Value> {
     // this process: it needs a fresh process per execution. A warm one (sequential prefix first)
     // only needs fresh bean names.
     let warm = case["seq0"].as_bool().unwrap_or(false);
+    // (inside the child of `dfs`) can the factory be reset in place?
+    let reset = if warm { None } else { instance_cell().filter(|c| reset_works(*c)) };
     let mut outcomes: BTreeSet<String> = BTreeSet::new();
     let mut prefix: Vec<usize> = Vec::new();
     let mut count = 0usize;
     let mut complete = false;
     let mut lost = false;
     loop {
+        let nth = u64::try_from(count).expect("count") + 1;
         let r = if warm {
-            exec_here(case, &prefix, count as u64 + 1)
+            exec_here(case, &prefix, nth)
+        } else if let Some(cell) = reset {
+            reset_factory(cell);
+            exec_here(case, &prefix, nth)
         } else {
             exec_child(case, &prefix)
         };
@@ -253,7 +359,8 @@ fn dfs(case: &Value) -> Vec<Value> {
             }
         }
     }
-    let mut obs = vec![json!({"complete": complete, "execs": count, "shim": crate::shimmed::SHIM_OK})];
+    let mode = if warm { "names" } else if reset.is_some() { "reset" } else { "fork" };
+    let mut obs = vec![json!({"complete": complete, "execs": count, "shim": crate::shimmed::SHIM_OK, "fresh": mode})];
     for o in outcomes {
         obs.push(serde_json::from_str(&o).expect("outcome"));
     }
